@@ -74,6 +74,8 @@ def stepLine (mode : String) (line : String) : String :=
 
 structure DState where
   objs : Array SubSt := #[]
+  /-- scripted callbacks: (object index, callback id, operations performed when invoked) -/
+  scripts : List (Nat × Nat × List CbOp) := []
   buf : List UInt8 := []
   kaPending : Bool := false
 
@@ -111,7 +113,11 @@ def showMsg (m : Msg) : String :=
 def deliver (d : DState) (m : Msg) : DState × String :=
   let r := d.objs.foldl (init := ((#[] : Array SubSt), ([] : List String), 0)) (fun (acc : Array SubSt × List String × Nat) st =>
     let (objs, outs, i) := acc
-    let st' := recv Gen.enums noExotic st m
+    let script : Nat → List CbOp := fun cb =>
+      match d.scripts.find? (fun e => e.1 == i && e.2.1 == cb) with
+      | some e => e.2.2
+      | none => []
+    let st' := recvScripted Gen.enums noExotic script st m
     let newCalls := st'.calls.drop st.calls.length
     let o := newCalls.map (fun c => s!"{i}:{c.cb}:{Hex.hexOfStr c.fn}:{showVal c.val}")
     (objs.push st', outs ++ o, i + 1))
@@ -174,6 +180,16 @@ def stepState (mode : String) (d : DState) (line : String) : DState × String :=
     | some cb => withObj d idx (fun st => (unregisterCb st cb, "ok"))
     | none => (d, "bad-op")
   | "subunit", ["close", idx] => withObj d idx (fun st => (closeSub st, "ok"))
+  | "subunit", "script" :: idx :: cb :: ops =>
+    let parseOp (t : String) : Option CbOp :=
+      match t.splitOn ":" with
+      | ["reg", n] => n.toNat?.map CbOp.reg
+      | ["unreg", n] => n.toNat?.map CbOp.unreg
+      | ["close"] => some CbOp.close
+      | _ => none
+    match idx.toNat?, cb.toNat?, ops.mapM parseOp with
+    | some i, some c, some os => ({ d with scripts := (i, c, os) :: d.scripts.filter (fun e => !(e.1 == i && e.2.1 == c)) }, "ok")
+    | _, _, _ => (d, "bad-op")
   | "subunit", ["sent", idx] => withObj d idx (fun st => (st, if st.sent.isEmpty then "-" else " ".intercalate (st.sent.map showSent)))
   | "subunit", ["queries", py] =>
     match findCls py with
